@@ -8,6 +8,8 @@ package ha
 //   dl  request: HAPeerServer.Heartbeat (fake server stream: Recv msg, EOF; Send captures the reply)
 //       reply:   PeerClient.RecvHeartbeat + Manager.handlePeerHeartbeat (body of ReceiveLoop)
 //   pl  Manager.handlePeerLost          pt  HeartbeatLoop.checkPeerTimeout with a stale LastHeartbeat
+//   tk  HeartbeatLoop.checkPeerTimeout with any combination of connected / start-up timeout expired / heartbeat
+//       too old / clock skew refused (all its branches, hasWaitingSRGs included)
 //   dn/up/de  Manager.handleInterfaceEvent
 //   sw  Manager.RequestSwitchover, peer RPC fails     SW  ... peer RPC reaches HAPeerServer.RequestSwitchover
 //   rs  HAPeerServer.RequestSwitchover
@@ -549,6 +551,28 @@ func c10RunCaseOnce(f []string) (res string) {
 			n.inbox = append(append([]c10Msg{}, n.inbox[:i]...), n.inbox[i+1:]...)
 		case "pl":
 			n.m.handlePeerLost()
+		case "tk":
+			// HeartbeatLoop.checkPeerTimeout with every combination of what it reads: bit 0 peer connected,
+			// bit 1 start-up timeout expired, bit 2 last heartbeat older than the timeout, bit 3 clock skew above
+			// the refuse threshold
+			bits := c10Arg(tok)
+			now := time.Now()
+			n.m.peer.mu.Lock()
+			n.m.peer.state.Connected = bits&1 != 0
+			n.m.peer.state.LastHeartbeat = now
+			if bits&4 != 0 {
+				n.m.peer.state.LastHeartbeat = now.Add(-time.Hour)
+			}
+			n.m.peer.state.ClockSkew = 0
+			if bits&8 != 0 {
+				n.m.peer.state.ClockSkew = -2 * clockSkewRefuseThreshold
+			}
+			n.m.peer.mu.Unlock()
+			n.hb.startedAt = now
+			if bits&2 != 0 {
+				n.hb.startedAt = now.Add(-time.Hour)
+			}
+			n.hb.checkPeerTimeout()
 		case "pt":
 			n.m.peer.mu.Lock()
 			n.m.peer.state.Connected = true
